@@ -456,11 +456,27 @@ REGEX_OPERANDS = [("posix-extended", "a{2,1}", False), ("posix-basic", "a\\{2,1\
                   ("posix-basic", "a\\{1", False), ("posix-extended", "a{x}", False)]
 
 
+def interval_operands():
+    """every form of interval - {n} {n,} {n,m} - over the boundary values, in each syntax that has intervals: valid iff each bound given is at
+    most RE_DUP_MAX (32767) and n <= m (the rule was checked against GNU find 4.9 on all of these when this was written)"""
+    vals = [0, 1, 2, 255, 32767, 32768, 99999, 100000, 100001]
+    out = []
+    for ty, lb, rb in (("posix-extended", "{", "}"), ("posix-basic", "\\{", "\\}"), ("grep", "\\{", "\\}")):
+        for n in vals:
+            out.append((ty, ".*a%s%d%s" % (lb, n, rb), n <= 32767))
+            out.append((ty, "a%s%d,%s" % (lb, n, rb), n <= 32767))
+            for m in vals:
+                out.append((ty, "xa%s%d,%d%sb" % (lb, n, m, rb), n <= 32767 and m <= 32767 and n <= m))
+    return out
+
+
 def regex_operands(ctx, forest):
     """an invalid operand to -regex is rejected (nothing printed, exit 1), a valid one is not - per syntax"""
-    for ty, pat, valid in REGEX_OPERANDS:
+    for ty, pat, valid in REGEX_OPERANDS + interval_operands():
         for prim in ("-regex", "-iregex"):
-            line = "find - %s %s" % (fw.hexs(forest.dir), xc.hexlist([b"sb", b"-regextype", ty.encode(), prim.encode(), pat.encode(), b"-o", b"-print0"]))
+            if prim == "-iregex" and len(pat) > 8 and (ty, pat, valid) not in REGEX_OPERANDS:
+                continue         # (the generated interval matrix once per operand)
+            line = "find - %s %s" % (fw.hexs(forest.dir), xc.hexlist([b"sb", b"-maxdepth", b"0", b"-regextype", ty.encode(), prim.encode(), pat.encode(), b"-o", b"-print0"]))
             code, out, err = wc.decode_find(xc.run_impl([line])[0])
             ctx.count(("regex-operand", ty, pat, prim), True, ["regex-operand", "valid=%d" % valid])
             rejected = code == 1 and out == b"" and err.startswith(b"Error")
